@@ -161,7 +161,7 @@ class C12(OptEngineBase):
     PROBES = [
         "early_stop", "stop_at_i1", "hit_max_iter_converged", "hit_max_iter_not_converged", "chi2_increase_seen", "nan_chi2",
         "chi2_exact_zero", "split_ge_3", "clock_backwards", "clock_frozen", "stdout_failed", "clone_after_abort", "clone_checked",
-        "table_parsed", "table_unparsed", "stop_rule_ambiguous", "stdout_none", "str_parsed", "singular_raised_as_error", "called_with_defaults", "interrupted_in_user_code", "nonunit_vertex_quaternion", "user_edit_between_calls", "graph_pickled_or_deepcopied_between_calls", "verbosity_flip_on_natural_failure",
+        "table_parsed", "table_unparsed", "stop_rule_ambiguous", "stdout_none", "str_parsed", "singular_raised_as_error", "called_with_defaults", "interrupted_in_user_code", "nonunit_vertex_quaternion", "user_edit_between_calls", "graph_pickled_or_deepcopied_between_calls", "verbosity_flip_on_natural_failure", "solver_raised_naturally",
     ]
 
     def generate(self, rng, tier, index):
@@ -354,6 +354,7 @@ class C12(OptEngineBase):
                     res.probe("stdout_none")
                 sink = w.stdout
                 fired_before = len(w.plan.fired)
+                nsr_before = w.natural_solver_raises
                 raised = None
                 result = None
                 try:
@@ -381,6 +382,19 @@ class C12(OptEngineBase):
                     res.outcome("raised:" + type(raised).__name__)
                     log.note("optimize", "raised:" + type(raised).__name__)
                     natural = type(raised).__name__ == "MatrixRankWarning" and (case.get("config") or {}).get("warnings", {}).get("kind") == "error"
+                    # (an efficiency warning turned into an error is not a refusal of the *system*: the library chose the
+                    # matrix format it hands over -- finding F10)
+                    solver_refused = w.natural_solver_raises > nsr_before and not natural and type(raised).__name__ != "SparseEfficiencyWarning"
+                    if solver_refused:
+                        # SciPy itself raised (e.g. SuperLU "failed to factorize matrix" on a NaN/inf system): the call may
+                        # fail; like after a failed print, only the fresh-clone check judges what follows
+                        res.probe("solver_raised_naturally")
+                        res.outcome("raised-by-solver:" + type(raised).__name__)
+                        B = graphs.clone(A)
+                        force_clone = True
+                        sig_ops.append(["optimize", "raised-by-solver"])
+                        log.note("optimize", "raised-by-solver:" + type(raised).__name__)
+                        continue
                     if natural:
                         res.probe("singular_raised_as_error")
                     if natural and C is not None and not fired_kinds:
